@@ -55,6 +55,24 @@ def c04_s(draw, pid, tier, opts=None):
         "pick": draw(st.integers(0, 50)),
         "pos": draw(st.integers(k + 1 if k else 0, n)),
     }
+    # optional reloads in the middle of the history (service table edited): both runs perform them
+    if draw(st.integers(0, 3)) == 0 and n > 2:
+        svcs = [list(x) for x in base["conf"]["services"]]
+        for _ in range(draw(st.integers(1, 2))):
+            e = draw(st.sampled_from(["drop", "add", "drop", "add", "retype"]))
+            if e == "drop" and svcs:
+                svcs = [x for i, x in enumerate(svcs) if i != draw(st.integers(0, len(svcs) - 1))]
+            elif e == "add":
+                free = [x for x in ep.SVC_POOL if x not in [y[0] for y in svcs]]
+                if free:
+                    svcs = svcs + [[draw(st.sampled_from(free)), draw(st.sampled_from(proto.PROTOCOLS))]]
+            elif e == "retype" and svcs:
+                i = draw(st.integers(0, len(svcs) - 1))
+                svcs[i] = [svcs[i][0], draw(st.sampled_from(proto.PROTOCOLS))]
+            pos = draw(st.integers(1, len(base["events"])))
+            base["events"].insert(pos, ["reload", [list(x) for x in svcs]])
+        n = len(base["events"])
+        stray["pos"] = draw(st.integers(0, n))
     # "shadow" an existing reply: same client and service, inserted right before it, so that the
     # stray line arrives while that service really owes an answer
     xs = [j for j, e in enumerate(base["events"]) if e[0] == "X" and e[4] == "cur"]
@@ -73,7 +91,7 @@ def stray_line(stray, conf, spec):
     cid = stray["id"]
     c = spec.cur.get(cid)
     ser = c.serial if c is not None else 1
-    svcs = [s[0] for s in conf["services"]] or ["nobody.ex"]
+    svcs = [n for n, p in spec.conf.services.items()] or [s[0] for s in conf["services"]] or ["nobody.ex"]
     svc = stray.get("svc_name") or svcs[stray["svc_i"] % len(svcs)]
     kind = stray["kind"]
     tag = "%x_%x" % (cid & 0xffffffff, ser)
@@ -143,6 +161,12 @@ def run_plain(conf, events, workdir, insert=None):
                         return steps, spec, info
                 if ev is None:
                     break
+                if ev[0] == "reload":
+                    newconf = dict(conf, services=ev[1])
+                    out, in_use, _ = d.reload(ep.conf_text(newconf))
+                    spec.conf = proto.Conf(newconf)
+                    steps.append(("(reload)", [b.decode("latin-1") for b in out], in_use))
+                    continue
                 line = ep.concretize(ev, spec)
                 spec.feed_input(i, line)
                 out, in_use, _ = d.step(line)
@@ -202,7 +226,7 @@ def c07_s(draw, pid, tier, opts=None):
     conf = draw(ep.conf_s("C07", tier))
     k = draw(st.integers(2, 5 if tier == "thorough" else 4))
     prof = ep.PROFILES.get("C07", ep.PROFILES["default"])
-    kinds = [x for x in ep.expand(prof) if x != "C"]
+    kinds = ep.expand(prof)          # includes re-announcement of the client's own id
     rk = ep.REPLY_KINDS["default"]
     scripts = []
     ids = draw(st.lists(st.integers(1, 60), min_size=k, max_size=k, unique=True))
@@ -215,7 +239,7 @@ def c07_s(draw, pid, tier, opts=None):
         scripts.append(sc)
     total = sum(len(s) for s in scripts)
     order = draw(st.lists(st.integers(0, k - 1), min_size=total // 2, max_size=total))
-    return {"conf": conf, "scripts": scripts, "order": order}
+    return {"conf": conf, "scripts": scripts, "order": order, "pad": draw(st.sampled_from([0, 0, 60, 100, 130, 200]))}
 
 
 def merge(scripts, order):
@@ -280,6 +304,30 @@ def eval_c07(case, ctx):
             res.violations.append(V("C07", "interference", "client %d: interleaved conversation differs from solo at line %d: %r vs solo %r"
                                     % (cid, j, inter[j] if j < len(inter) else None, solo[i][j] if j < len(solo[i]) else None)))
             break
+    # the same interleaving written in one piece (the daemon then reads it in 4096-byte chunks):
+    # still the same per-client conversations
+    if not res.violations:
+        import eng_proto3 as ep3
+        spec_b = proto.Spec(proto.Conf(case["conf"]), "ARUW")
+        lines = []
+        for i, ev in enumerate(events):
+            ln = ep.concretize(ev, spec_b)
+            spec_b.feed_input(i, ln)
+            lines.append(ln)
+        pad = case.get("pad", 0)
+        noise = ["-1 M padding.server.example.org %d" % i for i in range(pad)]
+        data = ("\n".join(noise[:pad // 2] + lines[:len(lines) // 2] + noise[pad // 2:] + lines[len(lines) // 2:]) + "\n").encode("latin-1")
+        shutil.rmtree(wd, ignore_errors=True)
+        rb = ep3.run_batch(ep.conf_text(case["conf"]), data, wd)
+        if rb["rc"] == 0 and not rb["hang"]:
+            bsteps = [(None, rb["out"], None)]
+            for i, sc in enumerate(scripts):
+                cid = sc[0][1]
+                if conversation(bsteps, cid) != solo[i]:
+                    res.violations.append(V("C07", "interference_batch", "client %d: conversation differs from solo when the interleaved stream (%d bytes) is written in one piece" % (cid, len(data))))
+                    break
+            if len(data) > 4096:
+                res.classes.add("batch_over_4096_bytes")
     # non-trivial: interleaving is not a concatenation and >=2 clients had queries
     ids = [e[1] for e in events if e[0] not in ("raw",)]
     switches = sum(1 for a, b in zip(ids, ids[1:]) if a != b)
@@ -356,6 +404,11 @@ def c09_s(draw, pid, tier, opts=None):
         if e[0] == "C":
             e[2] = draw(address_s())
             e[3] = draw(st.sampled_from([0, 1, 65535, 6667])) if draw(st.booleans()) else draw(st.integers(0, 65535))
+    # an occasional reply text far longer than a protocol line (the sender's buffer is 1024 bytes)
+    xs = [e for e in events if e[0] == "X" and " " in e[3]]
+    if xs and draw(st.integers(0, 5)) == 0:
+        e = draw(st.sampled_from(xs))
+        e[3] = e[3].split(" ", 1)[0] + " " + draw(st.text(ep.TEXT, min_size=1, max_size=3)) * draw(st.sampled_from([300, 400, 700, 1200]))
     noisy = ["-1 ? bogus", "-1 ? config", "-1 N garbage", "-1 d", "-1 U a :b", "-1 H", "-1 T", "-1 D", "-1 P :x", "-1 n x", "-1 u x",
              "-1 E errtype :some error text", "-1 M irc.example.org 1024", "-1 M short", "-1 ?"]
     for _ in range(draw(st.integers(0, 5))):
